@@ -46,6 +46,7 @@ CHECKS = {
             ("R-NORM.c03", "r_norm", "run_c03", ("quick", "thorough"))],
     "C13": [("R-MPFZERO", "r_mpfzero", "run", ("quick", "thorough")),
             ("R-EXTENT.c13", "r_alias", "run_c13", ("quick", "thorough"))],
+    "C12": [("R-SIGN", "r_sign", "run", ("quick", "thorough"))],
     "C14": [("R-PURE", "r_assert", "run_pure", ("quick", "thorough")),
             ("R-CONSTASSERT", "r_assert", "run_constassert", ("quick", "thorough")),
             ("R-TMP.modes", "r_tmp", "run_modes", ("quick", "thorough")),
@@ -94,9 +95,17 @@ RULES = {
     "R-ABI.c03": ("r_abi", "run_c03"),
     "R-ALIAS.c03": ("r_alias", "run_c03"),
     "R-NORM.c03": ("r_norm", "run_c03"),
+    "R-SIGN": ("r_sign", "run"),
 }
 
 EXPLANATION = {
+    "C12": "Decides one clause of 'every result is canonical': the denominator of every result is positive.  Sign-domain abstract "
+           "interpretation (subsets of {negative, zero, positive}) over the Clang CFG of every function in mpq/ that produces a rational, for "
+           "canonical inputs of every sign and every permitted aliasing of the result with an operand (each alias scenario analysed with the "
+           "aliased objects unified); mpz callees by their sign algebra, static helpers by their own verdict.  Three-valued: refuted only when "
+           "a non-positive sign at an exit is exact, i.e. built from the caller's freely chosen input signs by copies, negation, ABS, products "
+           "with definite-sign factors and understood tests.  Exactness of the arithmetic, coprimality and 'zero is 0/1' are values and are "
+           "not decided.",
     "C13": "Decides two of the format rules in the property's last clause, not the accuracy of any result.  (1) R-MPFZERO ('zero has exponent "
            "0'): must-dataflow over every function that stores the literal 0 into the size of an mpf object it was given - on every path to "
            "every exit the exponent is stored 0 as well (19 zero-result exits in mpf/, all paired).  (2) R-EXTENT.c13 ('at most prec+1 limbs'): "
@@ -191,6 +200,12 @@ EXPLANATION = {
 }
 
 ASSUMPTIONS = {
+    "R-SIGN": ["entry model from the manual: operands are canonical (denominator positive), numerators and integer arguments have any sign, "
+               "chosen independently; mpq_canonicalize gets any non-zero denominator", "sign algebra of the mpz functions used (mul, divexact, "
+               "divexact_gcd with a positive divisor, gcd, set, neg, abs, add, sub, mul_2exp, swap) is taken from the manual; every other callee "
+               "makes what it may write unknown", "_mpz_realloc is taken not to change the size field (it clears it only when asked to shrink "
+               "below the current size)", "a refutation additionally assumes that branch conditions the domain does not understand do not make the path infeasible as a "
+               "whole (the quantities they mention lose exactness until the arms meet again untouched)"],
     "R-OVERLAP.assert": ["aliasflow's copy clause: 'destination below source inside what may be one block' is decided from base-pointer / advanced-"
                          "pointer status and constant offsets; blocks the function itself installs (init functions) are nobody else's"],
     "R-CXXMAP": ["the conflict table (py/r_cxxmap.py SEM) is read off the manual's C++ interface chapter: / and % truncate, >> floors, the named "
